@@ -8,7 +8,7 @@ mod num;
 mod query;
 mod records;
 
-use futures::{Stream, TryStreamExt};
+use futures::{Stream, StreamExt, TryStreamExt};
 use noodles_core::Region;
 use noodles_fasta as fasta;
 use noodles_sam as sam;
@@ -386,16 +386,24 @@ where
             .map(|record| SeekFrom::Start(record.offset()))
             .unwrap_or(SeekFrom::End(0));
 
+        // Without unplaced records, there is nothing to read at the end of the stream.
+        let max_record_count = match offset {
+            SeekFrom::Start(_) => usize::MAX,
+            _ => 0,
+        };
+
         self.get_mut().seek(offset).await?;
 
-        Ok(Box::pin(self.records(header).try_filter_map(
-            |record| async {
-                if record.flags().is_unmapped() {
-                    Ok(Some(record))
-                } else {
-                    Ok(None)
-                }
-            },
-        )))
+        Ok(Box::pin(
+            self.records(header)
+                .try_filter_map(|record| async {
+                    if record.flags().is_unmapped() {
+                        Ok(Some(record))
+                    } else {
+                        Ok(None)
+                    }
+                })
+                .take(max_record_count),
+        ))
     }
 }
